@@ -1,29 +1,72 @@
+"""Stand-alone reproductions (skoolkit only) of the C11 findings on the unchanged tree.
+
+Run:  /venv/bin/python /verif/mc/refs/c11_repro.py
+
+Each case feeds a tiny tape through the path tap2sna takes (tap2sna._get_tape_blocks ->
+tape.get_edges) and prints what comes out next to what the tape specifies.
+
+F-A  features ~ zero_lead_after_pause          (lead's F9)
+F-B  features ~ odd_zero_pulses_before_tail    (lead's F10)
+F-C  space=flags clause=pilot_count flag 1..127 (lead's F11)
+F-D  features ~ partial_byte_unequal_pulse_counts
+F-E  features ~ zero_length_end_after_tail
+"""
 import sys
 sys.path.insert(0, '/repo')
 from skoolkit import tap2sna, tape
+
+
 def edges(name, data, **kw):
     blocks = [b for b in tap2sna._get_tape_blocks([(name, data)], True, 1, 0, (), True) if b.timings]
-    for b in blocks: b.keys = None
+    for b in blocks:
+        b.keys = None
     e, d = tape.get_edges(blocks, kw.get('first_edge', 0), kw.get('polarity', 0))
     return e, [(x.start, x.end) for x in d]
-def blk(tag, body): return tag + len(body).to_bytes(4, 'little') + body
-w = lambda *ws: b''.join(x.to_bytes(2, 'little') for x in ws)
+
+
+def blk(tag, body):
+    return tag + len(body).to_bytes(4, 'little') + body
+
+
+def w(*ws):
+    return b''.join(x.to_bytes(2, 'little') for x in ws)
+
+
+def dword(n):
+    return n.to_bytes(4, 'little')
+
+
+HIGH = 0x80000000
 hdr = blk(b'PZXT', b'\x01\x00')
+
 # F-A: PULS 1x1000 ; PAUS level 1, 5000 T ; DATA level 1, 8 bits 0xA5, s0=(80,0) s1=(0,80), tail 0
-pzx = hdr + blk(b'PULS', w(1000)) + blk(b'PAUS', (0x80000000 | 5000).to_bytes(4, 'little')) + \
-      blk(b'DATA', (0x80000000 | 8).to_bytes(4, 'little') + w(0) + bytes((2, 2)) + w(80, 0) + w(0, 80) + bytes([0xA5]))
-print('F-A', edges('a.pzx', pzx))
+#      get_edges zero-pulse merge path does `edges[-1] += d` on the edge BEFORE the pause.
+pzx = hdr + blk(b'PULS', w(1000)) + blk(b'PAUS', dword(HIGH | 5000)) + \
+    blk(b'DATA', dword(HIGH | 8) + w(0) + bytes((2, 2)) + w(80, 0) + w(0, 80) + bytes([0xA5]))
+print('F-A got     ', edges('a.pzx', pzx)[0])
+print('    expected [0, 1000, 6000, 6080, 6160, 6240, 6400, 6480, 6560, 6640]  (the first 1-bit, low for 80 T after the pause, is lost)')
+
 # F-B: PULS 1x1000 ; DATA level 1, 1 bit (0), s0=(0) s1=(855), tail 945 ; PULS 1x1000
-pzx = hdr + blk(b'PULS', w(1000)) + blk(b'DATA', (0x80000000 | 1).to_bytes(4, 'little') + w(945) + bytes((1, 1)) + w(0) + w(855) + bytes([0x00])) + blk(b'PULS', w(1000))
-print('F-B', edges('b.pzx', pzx))
-# F-C: TAP block with flag byte 1
-print('F-C', len(edges('c.tap', bytes((2, 0, 1, 1)))[0]))
+#      the toggle of the zero-length pulse is still pending (p != q) when the tail pulse is added.
+pzx = hdr + blk(b'PULS', w(1000)) + blk(b'DATA', dword(HIGH | 1) + w(945) + bytes((1, 1)) + w(0) + w(855) + bytes([0x00])) + blk(b'PULS', w(1000))
+print('F-B got     ', edges('b.pzx', pzx)[0])
+print('    expected level low throughout [0, 2945): level changes only at 0 and 2945 (e.g. [0, 1000, 1000, 1945, 1945, 2945])')
+
+# F-C: standard-speed block with flag byte 0x01 (TAP bytes 02 00 01 01)
+print('F-C got      {} edges (3223 pilot pulses)'.format(len(edges('c.tap', bytes((2, 0, 1, 1)))[0])))
+print('    expected 8098 edges: 8063 pilot pulses for a flag byte < 128 (TZX 0x10 text, ROM SA-FLAG BIT 7,A)')
+
 # F-D: DATA level 0, 11 bits (FF + top 3 bits of A5 = 1,0,1), s0=(500) s1=(250,250), tail 0
-pzx = hdr + blk(b'DATA', (11).to_bytes(4, 'little') + w(0) + bytes((1, 2)) + w(500) + w(250, 250) + bytes([0xFF, 0xA5]))
+#      used-bits slice `(len(bt) * used_bits) // 8` assumes 0 and 1 bits have the same number of pulses.
+pzx = hdr + blk(b'DATA', dword(11) + w(0) + bytes((1, 2)) + w(500) + w(250, 250) + bytes([0xFF, 0xA5]))
 e = edges('d.pzx', pzx)[0]
-print('F-D', len(e) - 1, 'pulses; last widths', [e[i+1]-e[i] for i in range(len(e)-6, len(e)-1)], '(expected 21 pulses ending 250,250,500,250,250)')
-# F-E: DATA (level 0, std, tail 945) ; DATA level 1, 1 bit (0), s0=(0) s1=(855), tail 0
-pzx = hdr + blk(b'DATA', (8).to_bytes(4, 'little') + w(945) + bytes((2, 2)) + w(855, 855) + w(1710, 1710) + bytes([0xA5])) + \
-      blk(b'DATA', (0x80000000 | 1).to_bytes(4, 'little') + w(0) + bytes((1, 1)) + w(0) + w(855) + bytes([0x00]))
+print('F-D got      {} pulses, the last five {}'.format(len(e) - 1, [e[i + 1] - e[i] for i in range(len(e) - 6, len(e) - 1)]))
+print('    expected 21 pulses, the last five [250, 250, 500, 250, 250]')
+
+# F-E: DATA (level 0, standard encodings, tail 945) ; DATA level 1, 1 bit (0), s0=(0) s1=(855), tail 0
+#      the final `edges[-1] == tail` pop adjusts only the last DataBlock (tap2sna: "array index out of range").
+pzx = hdr + blk(b'DATA', dword(8) + w(945) + bytes((2, 2)) + w(855, 855) + w(1710, 1710) + bytes([0xA5])) + \
+    blk(b'DATA', dword(HIGH | 1) + w(0) + bytes((1, 1)) + w(0) + w(855) + bytes([0x00]))
 e, d = edges('e.pzx', pzx)
-print('F-E', 'edges', len(e), 'max index', len(e) - 1, 'data block ranges', d)
+print('F-E got      {} edges (max index {}), data block ranges {}'.format(len(e), len(e) - 1, d))
+print('    expected every range inside 0..{}'.format(len(e) - 1))
